@@ -32,7 +32,7 @@ from schema_gen import obj_to_coq
 
 CLAIM = {
     "text": "Coq theorems (Props/C13.v) about a model of validate.valid_instance / validate_value_type / valid and the five verify() overrides over the regenerated schema tables, for EVERY schema, VALIDATOR key list, primitive-validator function and instance tree (unbounded depth, induction over the reachability relation / instance trees): if any sub-instance reachable through declared child members has a required attribute missing or empty, a child count outside its c_cardinality min/max, or an attribute / text value refused by the primitive validator its declared type name resolves to, by its enumeration, or by its list member type, then valid_instance(root) and root.verify() raise (C13_rejects, C13_rejects_actual, C13_rejects_decided); if every node satisfies its constraints with resolving types and the overrides' own conditions hold, both succeed (C13_accepts, C13_accepts_decided); the two sides are exclusive. Kernel-evaluated on today's tables for ALL rows, no exception list: every declared attribute type / value-type base / list member resolves - a name that is an XSD built-in type to the VALIDATOR key of that very type, any other name to string (C13_types_resolve, C13_value_types_resolve), valid() never raises KeyError for any type name (C13_valid_never_keyerror), every declared enumeration is decided by membership alone whatever its base (C13_enumerations_enforced), so no typed or enumerated attribute value escapes (C13_no_typed_value_escapes, C13_no_enumerated_value_escapes); the verify() overrides are the five modelled ones. NO GENERAL ESCAPE HATCH (C13_no_escape_hatch, induction over the tree): for every schema, primitive validators, tree and ANY rewriting of the extension-attribute dictionaries (xsi:nil = true / 1 added, removed, everything replaced) at every node whose class does not run AttributeValueBase.verify(), valid_instance and verify return the very same verdict; the root's own extension attributes are never looked at. The Gallina lexical validators test the WHOLE value (C13_boolean_anchored: junk before / after an accepted boolean is refused; C13_integer_whole_value / C13_integer_junk_refused: an accepted integer is blanks, one optional sign and digits / single underscores, any other character at any place is refused; C13_nmtoken_whole_value). Non-vacuity: a Response and an EntityDescriptor read back from real objects satisfy `good`, 13 single-constraint mutations of them 1-3 levels down have a reachable violation. The model follows validate.py WITH the repairs proposed_fix/C13-1..3; *_before_fix_refuted theorems keep the failures of the earlier code.",
-    "note": "Trusted: Coq kernel + vm_compute; translator; the model is hand-written and tested per constraint on every run (units prim, valid, vvt, valid_instance_spec, verify). In the theorems the primitive lexical validators are a function parameter; in the correspondence boolean, the string kinds, the 13 integer kinds (python int() grammar: blanks, sign, single underscores; ASCII digits only), NMTOKEN(S), language and valid_domain_name (regular expressions through a derivative matcher) are Gallina definitions compared with the real functions on edge values, while dateTime, duration, base64Binary, anyURI and IP address are a table of clear-cut samples whose verdicts are checked against the real functions; the table (and the edge values of the Gallina validators) holds about 330 values that begin or end with a valid lexical form and carry junk, a second value or a line break (UNANCHORED; each asserted to lie outside an independent regular expression of the lexical space), dateTime also through time_util.str_to_time and its fallback regular expression; the same values are put into every typed attribute / typed text / enumeration (5 per place, rotating), and every class gets its violated text-less variants again with xsi:nil = true / 1 as an extension attribute, through valid_instance AND obj.verify(), at the root, nested, and below a parent that carries xsi:nil. KNOWN FINDING duration-trailing-junk-after-time-part: valid_duration accepts PT1Hjunk, PT1H2, PT1HPT1H (time_util.parse_duration does not compare its index with the length); the table follows the code for these 7 rows. str.strip() / str.lower() are modelled for ASCII. ONLY TESTED, not proved: agreement of model and code; the constraints taken from the SAML 2.0 schemas (SPEC_ANCHORS); that the SP / IdP entry points run the validation on what they parse (23 violated messages through parse_authn_request_response / parse_authn_request). c_value_type maxlen is never enforced (outside the statement). Occurrence bounds are c_cardinality entries only; a single-valued child without an entry (Assertion.issuer, Response.status) is not checked. The committed check expects /repo + proposed_fix/C13-1.diff, C13-2.diff, C13-3.diff (on the unrepaired tree it reports the 177 former findings as violations).",
+    "note": "Trusted: Coq kernel + vm_compute; translator; the model is hand-written and tested per constraint on every run (units prim, valid, vvt, valid_instance_spec, verify). In the theorems the primitive lexical validators are a function parameter; in the correspondence boolean, the string kinds, the 13 integer kinds (python int() grammar: blanks, sign, single underscores; ASCII digits only), NMTOKEN(S), language and valid_domain_name (regular expressions through a derivative matcher) are Gallina definitions compared with the real functions on edge values, while dateTime, duration, base64Binary, anyURI and IP address are a table of clear-cut samples whose verdicts are checked against the real functions; the table (and the edge values of the Gallina validators) holds about 330 values that begin or end with a valid lexical form and carry junk, a second value or a line break (UNANCHORED; each asserted to lie outside an independent regular expression of the lexical space), dateTime also through time_util.str_to_time and its fallback regular expression; the same values are put into every typed attribute / typed text / enumeration (5 per place, rotating), and every class gets its violated text-less variants again with xsi:nil = true / 1 as an extension attribute, through valid_instance AND obj.verify(), at the root, nested, and below a parent that carries xsi:nil. FORMER FINDING duration-trailing-junk-after-time-part (repaired in /repo by 24b91977): valid_duration accepted PT1Hjunk, PT1H2, PT1HPT1H because time_util.parse_duration did not compare its index with the length; the 7 rows stay in the table with the code's verdict and the oracle demands refusal. str.strip() / str.lower() are modelled for ASCII. ONLY TESTED, not proved: agreement of model and code; the constraints taken from the SAML 2.0 schemas (SPEC_ANCHORS); that the SP / IdP entry points run the validation on what they parse (23 violated messages through parse_authn_request_response / parse_authn_request). c_value_type maxlen is never enforced (outside the statement). Occurrence bounds are c_cardinality entries only; a single-valued child without an entry (Assertion.issuer, Response.status) is not checked. The committed check expects /repo as it is (the repairs 6afd175c, 2ce8365a, b02e1013 and 24b91977 have landed; on an unrepaired tree it reports the former findings as violations).",
     "technique": "machine-checked proof (Coq, induction over instance trees) + regenerated-table obligations over all rows + per-constraint model/implementation correspondence",
 }
 TRUSTED = [
@@ -121,9 +121,9 @@ UNANCHORED = {
 }
 for _k, (_lo, _hi) in INT_RANGES.items():
     UNANCHORED[_k] = _int_unanchored("-42" if _hi is not None and _hi < 42 else "42")
-# the same shape, but validate.valid_duration (time_util.parse_duration) ACCEPTS them today: parse_duration never looks at what
-# follows the last designator it understood once the time part has begun (known finding duration-trailing:*; the model's table
-# follows the code for these rows)
+# the same shape; validate.valid_duration (time_util.parse_duration) ACCEPTED them until /repo 24b91977 (parse_duration never
+# looked at what follows the last designator it understood once the time part had begun); the model's table follows the code
+# for these rows and check_prims demands refusal (key duration-trailing-junk-after-time-part)
 UNANCHORED_DEFECT = {"duration": ["PT1Hjunk", "PT1H trailing words", "PT1H2", "PT1HPT1H", "PTjunk", "P1DT1Hx", "PT1H\nx"]}
 # an independent statement of each lexical space (whole value): what is NOT matched must be refused
 LEXICAL = {
